@@ -250,6 +250,11 @@ func (s *Service) refreshAttesterDutiesForEpoch(ctx context.Context, epoch phase
 	for slot := s.chainTimeService.FirstSlotOfEpoch(epoch); slot < s.chainTimeService.FirstSlotOfEpoch(epoch+1); slot++ {
 		if err := s.scheduler.CancelJob(ctx, fmt.Sprintf("Attestations for slot %d", slot)); err == nil {
 			cancelledJobs[slot] = true
+			// The job has been withdrawn so will never clear its own mark; the slot no longer has
+			// pending attestations unless it is rescheduled below.
+			s.pendingAttestationsMutex.Lock()
+			delete(s.pendingAttestations, slot)
+			s.pendingAttestationsMutex.Unlock()
 		}
 	}
 
